@@ -255,6 +255,10 @@ def run(ctx):
             rels.append(relations.relate("PartOfMulti" if multi else "Part", rp, ptext, ru, union, scope_all_a=True, with_bonds=not multi,
                                          meta=dict(meta, part=tag, part_pdb=ptext)))
     ctx.extra["placements_skipped_field_limit"] = skipped
+    # the same clause at the level of one interaction (tla/Energy.tla): at and beyond the outer cut-off the value is zero
+    from .. import energyfn
+    for key_, msg_, payload_ in energyfn.run(ctx, ("zero",), ctx.thorough()):
+        ctx.violation(key_, msg_, payload_)
     viol = relations.validate(ctx, rels, ["SameConfs", "Part", "PartOfMulti", "SameBonds"], "part alone vs part inside union")
     seen = set()
     for inv, lst in sorted(viol.items()):
